@@ -104,16 +104,20 @@ theorem carriageReturn_rollup {ch : Channel} (h : ChInv ch) (chan : Nat) (hm : c
   have hwin := h.win
   have hrow := h.row_le
   have hne : ch.mode ≠ .popOn := by rw [hm]; decide
-  have hev := carriageReturn_ev h chan hne
+  have hev := carriageReturn_ev h chan (Or.inl hne)
   have hmn : (ch.mode == .none) = false := by rw [hm]; rfl
   have hr0 : ch.roll ≠ 0 := by omega
   have hlast : min (ch.row1 + ch.roll - 1) (15 - 1) = ch.row := by omega
   have hnlt : ¬ ch.row < ch.row := by omega
   have hbb : (ch.hidden != (ch.mode != .popOn)) = !ch.hidden := by rw [hm]; cases ch.hidden <;> rfl
+  have es : crSync ch = update (wordBreak ch true) := by
+    unfold crSync
+    have : (crPopOnNoUpdate && ch.mode == .popOn) = false := by rw [hm]; simp
+    rw [this]; rfl
   have e : carriageReturn ch chan =
       crFinish (crClear (crMove (update (wordBreak ch true)) (!ch.hidden)) chan) ch.row := by
     unfold carriageReturn
-    simp only [hmn, Bool.false_eq_true, if_false, hr0, rows_eq, hlast, hnlt, hbb]
+    simp only [hmn, Bool.false_eq_true, if_false, hr0, rows_eq, hlast, hnlt, hbb, es]
   rw [e] at hev ⊢
   have hW := (wordBreak_upd h true).inv h
   have u1 := (wordBreak_upd h true).trans (update_upd hW)
@@ -209,17 +213,20 @@ theorem putChar_attr {ch : Channel} (h : ChInv ch) (c : Cell) : (putChar ch c).a
     simpa [hlt] using this
 
 /-- the pen after a mid-row code (15.119 (h)): flash off, underline bit; a colour code selects the
-    colour and switches italics off; libzvbi's italics code switches italics on AND sets white -/
+    colour and switches italics off; the italics code switches italics on and, on a tree with finding F46
+    (`midrowItalicsKeepsColour = false`), also sets white -/
 def midRowPen (old : Cell) (c2 : Nat) : Cell :=
   if (c2 >>> 1) &&& 7 < 7 then
     { old with flash := false, underline := c2 &&& 1 != 0, italic := false, fg := palette ((c2 >>> 1) &&& 7) }
+  else if midrowItalicsKeepsColour then { old with flash := false, underline := c2 &&& 1 != 0, italic := true }
   else { old with flash := false, underline := c2 &&& 1 != 0, italic := true, fg := colWhite }
 
 theorem midRow_attr {ch : Channel} (h : ChInv ch) (c2 : Nat) : (midRow ch c2).attr = midRowPen ch.attr c2 := by
   unfold midRow putCharSpace
   have h1 := h.withAttr { ch.attr with flash := false, underline := c2 &&& 1 != 0 }
-  rw [putChar_attr (setColour_inv h1 _)]
-  unfold setColour midRowPen
-  split <;> rfl
+  rw [putChar_attr (setColourMid_inv h1 _)]
+  unfold setColourMid midRowPen
+  repeat' split
+  all_goals rfl
 
 end Zvbi.Cc
